@@ -204,8 +204,12 @@ class SymmetryAnalyzer(object):
         Returns:
             bool: is the object chiral.
         """
-        operations = self.get_symmetry_operations()
-        rotations = operations["rotations"]
+        # The operations of the detected space group are needed here. The
+        # operations stored in the dataset are those of the given cell, and
+        # e.g. for a supercell that breaks the lattice symmetry they form only
+        # a subgroup of the space group.
+        hall_number = self.get_hall_number()
+        rotations = spglib.get_symmetry_from_database(hall_number)["rotations"]
         chiral = True
         for rotation in rotations:
             determinant = np.linalg.det(rotation)
